@@ -109,9 +109,66 @@ Fixpoint join (s : token) (l : list (list token)) : list token :=
   | x :: r => x ++ s :: join s r
   end.
 
+(* ---- parenthesis policies ------------------------------------------------------------------ *)
+(* Where a printer puts parentheses: one decision per parent kind and operand position, taken on
+   the operand alone.  [stringify_policy] is what [stringify] does today (the functions above; the
+   positions it has no [match] for never get parentheses).  [fixed_policy] is the proposed repair
+   F02 (notes/C09.md): the same decisions plus the missing ones, written as the added match arms. *)
+Record policy := {
+  pol_cmp_l : ast -> bool;  pol_cmp_r : ast -> bool;
+  pol_concat_l : ast -> bool;  pol_concat_r : ast -> bool;
+  pol_sum_l : ast -> bool;  pol_sum_r : sum_op -> ast -> bool;
+  pol_prod_l : ast -> bool;  pol_prod_r : ast -> bool;
+  pol_pow_l : ast -> bool;  pol_pow_r : ast -> bool;
+  pol_neg : ast -> bool;  pol_pct : ast -> bool;
+  pol_range_l : ast -> bool;  pol_range_r : bool -> ast -> bool;   (* the flag is export_to_excel *)
+  pol_at : ast -> bool;  pol_spill : ast -> bool;                    (* display forms only *)
+}.
+
+Definition never (_ : ast) : bool := false.
+
+Definition stringify_policy : policy := {|
+  pol_cmp_l := never; pol_cmp_r := never; pol_concat_l := never; pol_concat_r := never;
+  pol_sum_l := sum_left_parens; pol_sum_r := sum_right_parens;
+  pol_prod_l := prod_left_parens; pol_prod_r := prod_right_parens;
+  pol_pow_l := pow_left_parens; pol_pow_r := pow_right_parens;
+  pol_neg := neg_parens; pol_pct := never;
+  pol_range_l := never; pol_range_r := fun _ => never; pol_at := never; pol_spill := never |}.
+
+(* the arms the repair adds *)
+Definition is_operator (c : ast) : bool :=      (* any binary operator or prefix / postfix operator *)
+  match c with
+  | ERangeOp _ _ | EConcat _ _ | ESum _ _ _ | EProd _ _ _ | EPow _ _ | ECmp _ _ _ | ENeg _ | EPct _ => true
+  | _ => false
+  end.
+Definition is_operator_or_implicit (c : ast) : bool :=
+  match c with EAt _ _ | ESpill _ => true | _ => is_operator c end.
+
+Definition fixed_policy : policy := {|
+  pol_cmp_l := never;
+  pol_cmp_r := fun r => match r with ECmp _ _ _ => true | _ => false end;
+  pol_concat_l := fun l => match l with ECmp _ _ _ => true | _ => false end;
+  pol_concat_r := fun r => match r with ECmp _ _ _ | EConcat _ _ => true | _ => false end;
+  pol_sum_l := fun l => match l with ECmp _ _ _ | EConcat _ _ => true | _ => false end;
+  pol_sum_r := fun _ r => match r with ESum _ _ _ | ECmp _ _ _ | EConcat _ _ => true | _ => false end;
+  pol_prod_l := fun l => match l with ESum _ _ _ | ECmp _ _ _ | EConcat _ _ => true | _ => false end;
+  pol_prod_r := fun r => match r with ESum _ _ _ | ECmp _ _ _ | EProd _ _ _ | EConcat _ _ => true | _ => false end;
+  pol_pow_l := pow_left_parens; pol_pow_r := pow_right_parens;
+  pol_neg := fun c => match c with
+                      | EPow _ _ | ESum _ _ _ | ENeg _ | EPct _ | EProd _ _ _ | EConcat _ _ | ECmp _ _ _ => true
+                      | _ => false end;
+  pol_pct := fun c => match c with
+                      | EConcat _ _ | ESum _ _ _ | EProd _ _ _ | EPow _ _ | ECmp _ _ _ => true
+                      | _ => false end;
+  pol_range_l := is_operator;
+  pol_range_r := fun xlsx c => if xlsx then is_operator c else is_operator_or_implicit c;
+  pol_at := is_operator_or_implicit;
+  pol_spill := is_operator_or_implicit |}.
+
 Section Printer.
   Variable m : pmode.
   Variable nm : names.
+  Variable pol : policy.
 
   (* function-argument separator: ',' when the decimal separator is '.', else ';' *)
   Definition arg_sep : sep := if pm_dot m then SepComma else SepSemicolon.
@@ -159,28 +216,29 @@ Section Printer.
     else if lp_opt p then [TLBracket; TIdent (lp_name p); TRBracket]
     else [TIdent (lp_name p)].
 
-  Fixpoint print (e : ast) : list token :=
+  Fixpoint gprint (e : ast) : list token :=
     match e with
     | EBool b => [TBoolean b]
     | ENum n => [TNumber n]
     | EStr s => [TString s]
     | ERef s _ p => print_ref s p
     | ERange s _ p1 p2 => print_range s p1 p2
-    | ERangeOp l r => print l ++ TColon :: print r
-    | EConcat l r => print l ++ TAnd :: print r
-    | ECmp op l r => print l ++ TCompare op :: print r
+    | ERangeOp l r =>
+        wrap (pol_range_l pol l) (gprint l) ++ TColon :: wrap (pol_range_r pol (pm_xlsx m) r) (gprint r)
+    | EConcat l r => wrap (pol_concat_l pol l) (gprint l) ++ TAnd :: wrap (pol_concat_r pol r) (gprint r)
+    | ECmp op l r => wrap (pol_cmp_l pol l) (gprint l) ++ TCompare op :: wrap (pol_cmp_r pol r) (gprint r)
     | ESum op l r =>
-        wrap (sum_left_parens l) (print l) ++ TAddition op :: wrap (sum_right_parens op r) (print r)
+        wrap (pol_sum_l pol l) (gprint l) ++ TAddition op :: wrap (pol_sum_r pol op r) (gprint r)
     | EProd op l r =>
-        wrap (prod_left_parens l) (print l) ++ TProduct op :: wrap (prod_right_parens r) (print r)
+        wrap (pol_prod_l pol l) (gprint l) ++ TProduct op :: wrap (pol_prod_r pol r) (gprint r)
     | EPow l r =>
-        wrap (pow_left_parens l) (print l) ++ TPower :: wrap (pow_right_parens r) (print r)
+        wrap (pol_pow_l pol l) (gprint l) ++ TPower :: wrap (pol_pow_r pol r) (gprint r)
     | ENamedFun _ name args =>
-        TIdent (nm_lower nm name) :: TLParen :: join (sep_token arg_sep) (map print args) ++ [TRParen]
+        TIdent (nm_lower nm name) :: TLParen :: join (sep_token arg_sep) (map gprint args) ++ [TRParen]
     | EFun f args =>
         (* "TRUE(" lexes as a Boolean token followed by "(" *)
         (match bool_of_name nm (fn_name nm f) with Some b => TBoolean b | None => TIdent (fn_name nm f) end)
-        :: TLParen :: join (sep_token arg_sep) (map print args) ++ [TRParen]
+        :: TLParen :: join (sep_token arg_sep) (map gprint args) ++ [TRParen]
     | EArray rows =>
         TLBrace ::
         join (sep_token print_row_sep)
@@ -189,24 +247,30 @@ Section Printer.
     | ETable name => [TIdent name]
     | EDefName name _ _ => [TIdent name]
     | EVar name _ => [TIdent name]
-    | ENeg c => TAddition SMinus :: wrap (neg_parens c) (print c)
-    | EPct c => print c ++ [TPercent]
+    | ENeg c => TAddition SMinus :: wrap (pol_neg pol c) (gprint c)
+    | EPct c => wrap (pol_pct pol c) (gprint c) ++ [TPercent]
     | EErr e => err_tokens nm e
     | EParseError => [TIllegal]                              (* the original text; never parser_image *)
     | EEmpty => []
     | ESpill c =>
-        if pm_xlsx m then TIdent t_xlfn_anchor :: TLParen :: print c ++ [TRParen]
-        else print c ++ [TSpill]
+        if pm_xlsx m then TIdent t_xlfn_anchor :: TLParen :: gprint c ++ [TRParen]
+        else wrap (pol_spill pol c) (gprint c) ++ [TSpill]
     | ELambdaDef ps body =>
         TIdent (if pm_xlsx m then t_xlfn_lambda else t_lambda) :: TLParen ::
-        join (sep_token arg_sep) (map print_param ps ++ [print body]) ++ [TRParen]
+        join (sep_token arg_sep) (map print_param ps ++ [gprint body]) ++ [TRParen]
     | ELambdaCall lam args =>
         (match lam with
          | EVar name _ => [TIdent (nm_lower nm name)]
-         | _ => print lam
-         end) ++ TLParen :: join (sep_token arg_sep) (map print args) ++ [TRParen]
+         | _ => gprint lam
+         end) ++ TLParen :: join (sep_token arg_sep) (map gprint args) ++ [TRParen]
     | EAt _ c =>
-        if pm_xlsx m then TIdent t_xlfn_single :: TLParen :: print c ++ [TRParen]
-        else TAt :: print c
+        if pm_xlsx m then TIdent t_xlfn_single :: TLParen :: gprint c ++ [TRParen]
+        else TAt :: wrap (pol_at pol c) (gprint c)
     end.
 End Printer.
+
+(* [stringify] as it is *)
+Definition print (m : pmode) (nm : names) : ast -> list token := gprint m nm stringify_policy.
+(* [stringify] with the proposed repair F02 *)
+Definition print_fixed (m : pmode) (nm : names) : ast -> list token := gprint m nm fixed_policy.
+
